@@ -97,7 +97,7 @@ def non_disclosure(scenarios, outs):
 
 def client_uv(run):
     """the WebAuthn entry points (anchor passkey-client/src/lib.rs): userVerification required / preferred / discouraged x
-    verification capability None / Some(false) / Some(true) x what the validation step reports, for register and
+    verification capability None / Some(false) / Some(true) x presence capability x what the validation step reports, for register and
     authenticate.  Judged on the observation alone: a request that requires verification on an authenticator whose
     verification is absent or unconfigured returns an error and leaves the store untouched; a ceremony succeeds only with
     the consent its requirement demands and its UV / UP bits are what the validation step reported."""
@@ -109,10 +109,10 @@ def client_uv(run):
         for verif in (None, False, True):
             for ans in ({"presence": True, "verification": True}, {"presence": True, "verification": False}, {"presence": False, "verification": True},
                         {"presence": False, "verification": False}):
-                for kind in ("ref", "memory"):
+                for kind, pres_cap in (("ref", True), ("memory", True), ("ref", False)):
                     ops = [reg_op(rng, selection={"rk": "discouraged", "require_rk": False, "uv": uvreq}), auth_op(rng, allow=[cid], uv=uvreq)]
                     scs.append(client_scenario(store_kind=kind, content=content, config={"counter": True},
-                                               user={"verif_enabled": verif, "presence_enabled": True, "script": [ans, ans]}, ops=ops))
+                                               user={"verif_enabled": verif, "presence_enabled": pres_cap, "script": [ans, ans]}, ops=ops))
     binary = common.harness_build("ceremony")
     outs = ceremony.run_scenarios(binary, scs)
     fails = []
